@@ -1,6 +1,7 @@
 package main
 
 import (
+	"os"
 	"fmt"
 	"math/big"
 
@@ -39,6 +40,9 @@ func (m *monC01) OnStep(r *Runner, st *Step) {
 	for _, rs := range residues {
 		if !residuePrecondition(st.Pre, rs.val) && !residuePrecondition(st.Post, rs.val) {
 			residueExcused = false
+		}
+		if os.Getenv("VERIF_C01_DEBUG") != "" {
+			fmt.Fprintf(os.Stderr, "C01DEBUG %s residue val=%s coins=%s pre=%v post=%v delegatorShares(pre)=%v\n", st.Name, short(rs.val), rs.coins, residuePrecondition(st.Pre, rs.val), residuePrecondition(st.Post, rs.val), st.Pre.ValInfos[rs.val].TotalDelegatorShares)
 		}
 	}
 	for i := range r.W.Cfg.Assets {
@@ -173,8 +177,12 @@ func residuePrecondition(s *Snap, val string) bool {
 		if K.Sign() == 0 {
 			continue
 		}
-		w := rquo(rmul(ratDec(a.RewardWeight), K), ratInt(a.TotalTokens))
-		if w.Cmp(big.NewRat(1, 1_000_000_000_000_000_000)) >= 0 {
+		// the module works with round18(validator shares / total shares) and truncates weight x tokens / total at
+		// 10^-18: a validator fraction or a staked weight of a few ulps may or may not survive that, and only
+		// clearly representable ones are held against the finding's precondition
+		frac := rquo(K, ratInt(a.TotalTokens))
+		w := rmul(ratDec(a.RewardWeight), frac)
+		if frac.Cmp(big.NewRat(4, 1_000_000_000_000_000_000)) >= 0 && w.Cmp(big.NewRat(10, 1_000_000_000_000_000_000)) >= 0 {
 			return false // some asset carries representable weight: the rewards belong to its delegators
 		}
 	}
